@@ -423,9 +423,19 @@ def run_case(case, repo, rng_mod):
     info = {"exc": exc_text, "nprobes": 0}
     if vm is None:
         return ev, info
+    qs = []
+    for s in list(vals) + [ev["dflt"], "no such string"]:
+        if s not in qs:
+            qs.append(s)
+    observe(vm, ev, info, tname, ents, len(vals), qs, case, rng, virt)
+    return ev, info
 
+
+def observe(vm, ev, info, tname, ents, nvals, qs, case, rng, virt):
+    """Everything that is observed on a created ValueMapping: tovalues for
+    every probe, tobinary for the strings qs, items(); written into ev."""
     # tovalues for every probe
-    probes = probes_for(tname, ents, len(vals), rng, case["full"])
+    probes = probes_for(tname, ents, nvals, rng, case["full"])
     info["nprobes"] = len(probes)
     cimtype = pywbem.type_from_name(tname)
     results = None
@@ -450,10 +460,6 @@ def run_case(case, repo, rng_mod):
     ev["tv"] = _rle(probes, results, virt)
 
     # tobinary for every Values string, the default and a foreign string
-    qs = []
-    for s in list(vals) + [ev["dflt"], "no such string"]:
-        if s not in qs:
-            qs.append(s)
     for s in qs:
         rec = {"s": s, "k": "E", "lo": 0, "hi": 0, "x": ""}
         try:
@@ -473,7 +479,213 @@ def run_case(case, repo, rng_mod):
     except Exception as exc:  # noqa
         ev["items"].append({"s": "UNCLASSIFIED:items raised %s" %
                             type(exc).__name__, "k": "E", "lo": 0, "hi": 0})
-    return ev, info
+
+
+# ---------------------------------------------------------------------------
+# histories: several value mappings created from ONE class object
+# ---------------------------------------------------------------------------
+
+class Kept:
+    """Connection stub of a caller that keeps the class object: GetClass
+    hands out that very object every time."""
+
+    def __init__(self, cls):
+        self.cls = cls
+
+    def GetClass(self, ClassName, namespace=None, **kw):  # noqa: N802,N803
+        return self.cls
+
+
+class CachingConn(FakedWBEMConnection):
+    """A connection with a class cache in front of the (mock) server: the
+    first GetClass of a class goes to the server, later ones are answered
+    with the cached object."""
+
+    def __init__(self, *args, **kw):
+        super().__init__(*args, **kw)
+        self.class_cache = {}
+
+    def GetClass(self, ClassName, namespace=None, **kw):  # noqa: N802,N803
+        key = ((namespace or self.default_namespace).lower(),
+               str(ClassName).lower())
+        if key not in self.class_cache:
+            self.class_cache[key] = super().GetClass(
+                ClassName, namespace=namespace, **kw)
+        return self.class_cache[key]
+
+
+HIST_VIAS = ["kept", "kept", "caching-mock", "caching-server", "fresh-mock"]
+
+
+def build_hist_case(plan, val_words, rng):
+    """Plan from TLC ([decl |-> <<element..>>, acts |-> <<[el, hasdflt,
+    dflt]..>>]) -> replayable concrete history (plain JSON)."""
+    kinds = rng.sample(["property", "method", "parameter"], len(plan["decl"]))
+    words = rng.sample(val_words, 8)
+    dmap = {"d1": "Default/%s" % words[6], "d2": "Default/%s" % words[7],
+            "": ""}
+    els = []
+    for d, kind in zip(plan["decl"], kinds):
+        tname = rng.choice(TYPE_NAMES)
+        ents = concretize_abstract(d["map"], tname, rng)
+        els.append({
+            "type": tname, "kind": kind,
+            "array": kind != "method" and rng.random() < 0.3,
+            "map": [e.text for e in ents],
+            "ents": [[e.k, e.lo, e.hi, bool(e.lopen), bool(e.hopen), e.nt]
+                     for e in ents],
+            "vals": ["%s#%d" % (words[i], i) for i in range(len(d["vals"]))],
+        })
+    return {
+        "els": els,
+        "acts": [{"el": a["el"], "dflt": dmap[a["dflt"]] if a["hasdflt"]
+                  else None} for a in plan["acts"]],
+        "via": rng.choice(HIST_VIAS),
+        "cimint": rng.random() < 0.5,
+        "listcall": rng.random() < 0.3,
+        "full": False,
+        "pseed": rng.randint(0, 2**30),
+    }
+
+
+def _hist_class(hc):
+    props, meths = [], []
+    mq, mtype, pars = [], "uint32", []
+    for el in hc["els"]:
+        quals = [CIMQualifier("ValueMap", list(el["map"]), type="string"),
+                 CIMQualifier("Values", list(el["vals"]), type="string")]
+        if el["kind"] == "property":
+            props.append(CIMProperty("Prop", None, type=el["type"],
+                                     is_array=el["array"], qualifiers=quals))
+        elif el["kind"] == "method":
+            mq, mtype = quals, el["type"]
+        else:
+            pars.append(CIMParameter("Par", type=el["type"],
+                                     is_array=el["array"], qualifiers=quals))
+    meths.append(CIMMethod("Meth", return_type=mtype, parameters=pars,
+                           qualifiers=mq))
+    return CIMClass("C20Hist", properties=props, methods=meths)
+
+
+def _element_of(cls, kind):
+    try:
+        if kind == "property":
+            return cls.properties["Prop"]
+        if kind == "method":
+            return cls.methods["Meth"]
+        return cls.methods["Meth"].parameters["Par"]
+    except KeyError:
+        return None
+
+
+def _snapshot(cls, hc):
+    """The ValueMap / Values qualifiers of every element as they are on the
+    class object now."""
+    out = []
+    for el in hc["els"]:
+        obj = _element_of(cls, el["kind"]) if cls is not None else None
+        rec = {"hasmap": False, "maptext": [], "hasvals": False, "vals": []}
+        if obj is not None:
+            for qn, hk, vk in (("ValueMap", "hasmap", "maptext"),
+                               ("Values", "hasvals", "vals")):
+                q = obj.qualifiers.get(qn, None)
+                if q is not None:
+                    rec[hk] = True
+                    rec[vk] = [x if isinstance(x, str) else
+                               "UNCLASSIFIED:%r" % (x,)
+                               for x in (q.value or [])]
+        out.append(rec)
+    return out
+
+
+def run_hist_case(hc):
+    """Drive one history on the real code; returns the trace for TLC
+    (Declare + one Create event per factory call) and readable records."""
+    import random
+    rng = random.Random(hc["pseed"])
+    cls = _hist_class(hc)
+    via = hc["via"]
+    ns = Repo.NS
+    if via == "kept":
+        conn = Kept(cls)
+        server = conn
+
+        def current():
+            return cls
+    else:
+        klass = FakedWBEMConnection if via == "fresh-mock" else CachingConn
+        conn = klass(default_namespace=ns)
+        scopes = {"PROPERTY": True, "METHOD": True, "PARAMETER": True}
+        conn.add_cimobjects([
+            CIMQualifierDeclaration("ValueMap", "string", is_array=True,
+                                    scopes=scopes),
+            CIMQualifierDeclaration("Values", "string", is_array=True,
+                                    scopes=scopes, translatable=True),
+            cls], namespace=ns)
+        server = WBEMServer(conn) if via == "caching-server" else conn
+
+        def current():
+            return conn.GetClass("C20Hist", namespace=ns, LocalOnly=False,
+                                 IncludeQualifiers=True)
+    virts = [Virt(el["type"]) for el in hc["els"]]
+    entss = [[Entry(k, lo, hi, lopen, hopen, nt=nt)
+              for k, lo, hi, lopen, hopen, nt in el["ents"]]
+             for el in hc["els"]]
+    blank = {"op": "", "el": 0, "decl": [], "hasdflt": False, "dflt": "",
+             "ctor": "", "tv": [], "tb": [], "items": [], "after": [],
+             "judgeobj": True}
+    decl = []
+    for el, virt, ents in zip(hc["els"], virts, entss):
+        decl.append({"tmin": virt.vmin, "tmax": virt.vmax,
+                     "zero": virt.c2v(0), "hasmap": True,
+                     "map": [e.to_json(virt) for e in ents],
+                     "maptext": list(el["map"]), "hasvals": True,
+                     "vals": list(el["vals"])})
+    trace = [dict(blank, op="Declare", decl=decl)]
+    infos = []
+    dstrings = []
+    for a in hc["acts"]:
+        if a["dflt"] is not None and a["dflt"] not in dstrings:
+            dstrings.append(a["dflt"])
+    for a in hc["acts"]:
+        i = a["el"] - 1
+        el, virt, ents = hc["els"][i], virts[i], entss[i]
+        args = {"values_default": a["dflt"]} if a["dflt"] is not None else {}
+        ev = dict(blank, op="Create", el=a["el"],
+                  hasdflt=a["dflt"] is not None,
+                  dflt=a["dflt"] if a["dflt"] is not None else "",
+                  ctor="ok", tv=[], tb=[], items=[])
+        info = {"exc": "", "nprobes": 0}
+        vm = None
+        try:
+            if el["kind"] == "property":
+                vm = ValueMapping.for_property(server, ns, "C20Hist",
+                                               _case("Prop", rng), **args)
+            elif el["kind"] == "method":
+                vm = ValueMapping.for_method(server, ns, "C20Hist",
+                                             _case("Meth", rng), **args)
+            else:
+                vm = ValueMapping.for_parameter(server, ns, "C20Hist",
+                                                _case("Meth", rng),
+                                                _case("Par", rng), **args)
+        except Exception as exc:  # noqa: every exception type is an observation
+            ev["ctor"] = type(exc).__name__
+            info["exc"] = str(exc)[:200]
+        if vm is not None:
+            qs = []
+            for s in list(el["vals"]) + dstrings + ["no such string"]:
+                if s not in qs:
+                    qs.append(s)
+            observe(vm, ev, info, el["type"], ents, len(el["vals"]), qs, hc,
+                    rng, virt)
+        try:
+            ev["after"] = _snapshot(current(), hc)
+        except Exception as exc:  # noqa
+            ev["after"] = [{"hasmap": False, "maptext": [], "hasvals": False,
+                            "vals": ["UNCLASSIFIED:%s" % type(exc).__name__]}]
+        trace.append(ev)
+        infos.append(info)
+    return trace, infos
 
 
 def _proj_tv(r):
